@@ -29,7 +29,7 @@
    (gpu_sharing.AllocateFractionalGPUTaskToNode).
 
    Four places follow the INTENDED behaviour, not the code as first found (all were reproduced as
-   defects on the real code by this module's traces; findings/F14, F15, F16, F17):
+   defects on the real code by this module's traces; findings/F14, F15, F21, F22):
      - un-pipelining a shared pod that Pipeline had moved to another GPU of the same node puts the node's
        entry of the pod back (the resources on the previous GPU were never removed);
      - un-pipelining a virtually evicted pod gives it back the GPU groups its previous node holds for it (the
@@ -350,7 +350,7 @@ DiscardFn(S) == IF Len(S.ops) = 0 THEN S ELSE [UndoDown(S, Len(S.ops), 1) EXCEPT
 
 \* ConvertAllAllocatedToPipelined(j): for each allocate entry of j (log order, entries as of the start):
 \* unallocate(clone, nextNode, clone's virtual flag); Pipeline(clone, clone.NodeName, TRUE) (appends); then drop j's
-\* allocate entries. (The code as first found passed TRUE: a later Discard left the Pending pod flagged virtual, F16.)
+\* allocate entries. (The code as first found passed TRUE: a later Discard left the Pending pod flagged virtual, F21.)
 RECURSIVE ConvertFrom(_, _, _, _)
 ConvertFrom(S, j, i, n0) ==
   IF i > n0 THEN S
